@@ -1,19 +1,19 @@
 CONSTANTS
-  NArb = 2
+  NArb = 1
   Thr = {t1}
-  PreCreated = 1
-  Kinds = {"spawn"}
+  PreCreated = 0
+  Kinds = {"spawn", "spawn_fn"}
   TaskStop = TRUE
   AtomicCalls = TRUE
   EagerJoin = TRUE
-  MaxCmds = 3
+  MaxCmds = 2
   MaxSys = 2
   Codes = {0, 7}
-  AllowBusy = FALSE
+  AllowBusy = TRUE
   FifoLocalQueue = TRUE
   StopEndsLoop = TRUE
   FirstCodeKept = TRUE
-  ExitStopsAll = FALSE
+  ExitStopsAll = TRUE
   RunOnArbiterThread = TRUE
   StopBeforeCode = TRUE
   DeregOwnId = TRUE
@@ -26,9 +26,8 @@ CONSTANTS
   SelfSend = FALSE
   SelfSendViaChannel = TRUE
   NegCodeIsErr = TRUE
-  CtrlBatch = 0
-SPECIFICATION Spec
-VIEW View
-SYMMETRY ThrSym
-INVARIANTS C09_FirstCodeWins C09_AllRegisteredStop C09_RunErrOnNonZero C09_EarlyStoppedDeregistered
+  CtrlBatch = 2
+SPECIFICATION FairSpec
+PROPERTIES L_StopLeadsToRunReturn L_MustStopExit
+INVARIANTS TypeOK
 CHECK_DEADLOCK FALSE
